@@ -151,6 +151,8 @@ def run_property(spec, tier, seed):
                 break
 
     # 7: verdict ------------------------------------------------------------------------------
+    # rejections not explained by a known class (verdict bit 2 unset) first
+    monf.sort(key=lambda i: 1 if (codes[i] & 4) else 0)
     seen_small = set()
     for i in monf[:spec.get("max_shrinks", 6)]:
         small = R.shrink(lines[i])
